@@ -253,6 +253,16 @@ class Response:
         return None
 
 
+def _syslog_standin(prio, msg):
+    """What syslog.syslog(priority, message) accepts: an int and a str that is encodable as UTF-8 and holds no NUL
+    (CPython raises UnicodeEncodeError resp. ValueError('embedded null character') otherwise)."""
+    if not isinstance(prio, int) or not isinstance(msg, str):
+        raise TypeError("syslog.syslog(int, str)")
+    msg.encode("utf-8")
+    if "\0" in msg:
+        raise ValueError("embedded null character")
+
+
 class _SinkBuffer:
     @staticmethod
     def write(data: bytes) -> int:
@@ -321,7 +331,7 @@ class Site:
         for syslog.syslog that, like it, accepts only text encodable as UTF-8."""
         method = self.config.get("logger", "logmethod")
         logger.sys = _SinkSys
-        logger.syslogfunc = lambda prio, msg: msg.encode("utf-8") and None
+        logger.syslogfunc = _syslog_standin
         logger.priority = 6
         real = {"file": logger.log_file, "syslog": logger.log_syslog}.get(method, logger.log_none)
 
